@@ -18,7 +18,10 @@ for s in 1 2 3 4 5 6 7 8 9; do
   done
 done
 echo "quiet: $q of $t"
-./check selftest-determinism 2>&1 | tail -1
+a=$(VERIF_WORKERS=16 ./check selftest-determinism 2>&1 | grep ' log=' | sort | md5sum)
+b=$(VERIF_WORKERS=7 ./check selftest-determinism 2>&1 | grep ' log=' | sort | md5sum)
+c=$(VERIF_WORKERS=16 ./check selftest-determinism 2>&1 | grep ' log=' | sort | md5sum)
+if [ "$a" = "$b" ] && [ "$a" = "$c" ]; then echo "determinism SAME (16 workers twice, 7 workers once)"; else echo "determinism DIFFERENT"; fi
 ./check selftest-primitives 2>&1 | grep -c "primitive selftest ok"
 (cd /repo && cargo test --workspace --no-fail-fast --offline 2>&1 | grep -E "^test result" | head -3)
 rm -rf "$OUT"
